@@ -15,7 +15,7 @@ def _b(x):
 
 
 def gen_tls(repo):
-    out = HEADER % 'qsmtpd/starttls.c, qsmtpd/commands.c'
+    out = HEADER % 'qsmtpd/starttls.c, qsmtpd/commands.c, lib/netio.c'
     st = strip_comments(read(repo, 'qsmtpd/starttls.c'))
     # ---- smtp_starttls: the guard
     body = func_body(st, 'smtp_starttls', 'qsmtpd/starttls.c')
@@ -65,6 +65,16 @@ def gen_tls(repo):
     sign = one(r'return\s+r\s*\?\s*-?\s*r\s*:\s*(-?)\s*EDONE\s*;', m.group(1), 'tls_err return')
     out += '(* tls_err() returns EDONE (smtploop: reply already sent); false: it returns -EDONE, which smtploop answers with a second reply *)\n'
     out += 'Definition TLS_ERR_RETURNS_EDONE : bool := %s.\n\n' % _b(sign == '')
+    # ---- lib/netio.c: is lineinn purged when the TLS state changed (drop_stale_input() at the start of net_read)?
+    nio = strip_comments(read(repo, 'lib/netio.c'))
+    drops = False
+    if re.search(r'\bdrop_stale_input\s*\(\s*void\s*\)\s*\{\s*if\s*\(\s*linenssl\s*!=\s*ssl\s*\)\s*\{\s*linenlen\s*=\s*0\s*;\s*linenssl\s*=\s*ssl\s*;\s*\}\s*\}', nio):
+        nr = func_body(nio, 'net_read', 'lib/netio.c')
+        drops = re.search(r'\{(?:[^;{}]*;)*?\s*drop_stale_input\s*\(\s*\)\s*;\s*if\s*\(\s*linenlen\s*\)', nr) is not None
+    elif 'drop_stale_input' in nio or 'linenssl' in nio:
+        raise TranslateError('netio.c: drop_stale_input() was not recognised')
+    out += '(* net_read() empties lineinn when ssl changed since the buffer was filled *)\n'
+    out += 'Definition NETIO_DROPS_STALE_INPUT : bool := %s.\n\n' % _b(drops)
     # ---- smtp_ehlo: announcement
     cm = strip_comments(read(repo, 'qsmtpd/commands.c'))
     eh = func_body(cm, 'smtp_ehlo', 'qsmtpd/commands.c')
